@@ -96,7 +96,10 @@ impl SyncTrackerRes {
     ) -> bool {
         let registry = world.resource::<AppTypeRegistry>().clone();
         let registry = registry.read();
-        let component_data = bin_to_reflect(data, &registry);
+        let Some(component_data) = bin_to_reflect(data, &registry) else {
+            debug!("Could not decode component data for {:?}", name);
+            return false;
+        };
         let name = if (*component_data).type_id() == TypeId::of::<SkinnedMeshSyncMapper>() {
             SkinnedMesh::default().reflect_type_path().to_string()
         } else {
@@ -162,16 +165,21 @@ impl SyncTrackerRes {
         material: &[u8],
         world: &mut World,
     ) {
+        let registry = world.resource::<AppTypeRegistry>().clone();
+        let registry = registry.read();
+        let Some(component_data) = bin_to_reflect(material, &registry) else {
+            debug!("Could not decode material {:?}", id);
+            return;
+        };
+        let Ok(mat) = component_data.downcast::<StandardMaterial>() else {
+            return;
+        };
         world
             .resource_mut::<SyncTrackerRes>()
             .pushed_handles_from_network
             .insert(id);
-        let registry = world.resource::<AppTypeRegistry>().clone();
-        let registry = registry.read();
-        let component_data = bin_to_reflect(material, &registry);
         let mut materials = world.resource_mut::<Assets<StandardMaterial>>();
-        let mat = *component_data.downcast::<StandardMaterial>().unwrap();
-        materials.insert(id, mat);
+        materials.insert(id, *mat);
     }
 
     pub(crate) fn to_skinned_mapper(
